@@ -208,6 +208,10 @@ def do_check(prop, sim, known, args):
     print("VERIF_SEED=%d property=%s tier=%s runs=%d workers=%d budget_s=%d repo=%s" % (seed, prop, tier, total_runs, workers, budget, args.repo))
     sys.stdout.flush()
 
+    pre = {}
+    if hasattr(sim, "preflight"):
+        # deterministic, un-sharded part of the check (e.g. the boot sweep)
+        pre = sim.preflight(seed, tier, known)
     # regression: replay files of repaired defects must stay clean
     regressions = []
     fdir = os.path.join(ROOT, "findings")
@@ -223,10 +227,6 @@ def do_check(prop, sim, known, args):
             if v is not None:
                 regressions.append((-1, case, v.record(prop), v.klass()))
                 print("regression: %s fails again" % name)
-    pre = {}
-    if hasattr(sim, "preflight"):
-        # deterministic, un-sharded part of the check (e.g. the boot sweep)
-        pre = sim.preflight(seed, tier, known)
 
     chunks = [(prop, seed, tier, s, min(s + chunk, total_runs), chunk_timeout) for s in range(0, total_runs, chunk)]
     agg = {
@@ -235,7 +235,8 @@ def do_check(prop, sim, known, args):
         "states": set(), "nontrivial": set(), "transitions": set(), "histories": set(),
     }
     capped = {"states": False, "nontrivial": False, "transitions": False, "histories": False}
-    violations = regressions + list(pre.get("violations", []))
+    early = regressions + list(pre.get("violations", []))
+    violations = []
     samples = []
     digests = {}
     truncated = False
@@ -291,6 +292,7 @@ def do_check(prop, sim, known, args):
 
     # ---- violations: minimise, write replay files, verify replay ------------
     reported = []
+    violations = early + violations
     if violations:
         violations.sort(key=lambda x: x[0])
         by_class = {}
